@@ -62,6 +62,12 @@ def main():
                 if r[0] != 'ret':
                     raise LookupError('ref to failed step')
                 return r[1][i]
+            if '$slice' in a:
+                k, lo, hi = a['$slice']
+                r = results[k]
+                if r[0] != 'ret':
+                    raise LookupError('ref to failed step')
+                return r[1][lo or None:hi or None]
             if '$bytes' in a:
                 return bytes.fromhex(a['$bytes'])
             if '$tuple' in a:
